@@ -295,3 +295,156 @@ def run_scope(seed, n=6):
         return len(cases), in_scope, fails, why
     finally:
         shutil.rmtree(tmp, ignore_errors=True)
+
+
+# ------------------------------------------------------------------ the with-items protocol (ProviderSysItems.v)
+
+ITEMS_FAM = progs.family(n_tasks=(2, 5), p_items=0.6, p_retry=0.15, p_cmd=0.15, p_join=0.4, p_fail=0.15, p_item_fail=0.15,
+                         p_other_abend=0.03, p_jinja=0.2, p_loop=0.0)
+
+ITEMS_HEADER = """From Coq Require Import String List Bool ZArith Arith.
+From Orq Require Import GenStatuses Base State Machines Codec Conductor Decode Api Driver ProviderSysItems.
+Import ListNotations.
+Open Scope string_scope.
+Definition st (s : string) : status := match as_status (JStr s) with Some x => x | None => S_RUNNING end.
+Definition same_ikeys (a b : list ikey) : bool :=
+  forallb (fun k => ikey_in k b) a && forallb (fun k => ikey_in k a) b.
+"""
+
+
+def items_history(sess, rng, oracle, steps):
+    ops = [("IBoot",)]
+    sess.boot()
+    for _ in range(steps):
+        r = rng.random()
+        if r < 0.4:
+            sess.poll()
+            ops.append(("IPoll",))
+        elif r < 0.8 and sess.inflight:
+            keys = sorted(sess.inflight, key=repr)
+            key = keys[rng.randrange(len(keys))]
+            stt, res = oracle.outcome(key, sess.inflight[key])
+            sess.report(key, stt, res)
+            ops.append(("IReport", key[0], key[1], key[2], stt, res))
+        elif r < 0.9:
+            stt = rng.choice(REQUESTS)
+            sess.request(stt)
+            ops.append(("IRequest", stt))
+        elif r < 0.95:
+            sess.render()
+            ops.append(("IRender",))
+        else:
+            sess.persist()
+            ops.append(("IPersist",))
+    return ops
+
+
+def items_case(seed):
+    rng = random.Random(seed)
+    definition, inputs = progs.gen_definition(rng, ITEMS_FAM)
+    sess = provider.Session(definition, inputs, with_model=False)
+    try:
+        ops = items_history(sess, rng, progs.Oracle(seed, ITEMS_FAM), rng.randint(6, 18))
+        api_ops = [op for op, _ in sess.trace]
+        final = sess.trace[-1][1]["state"]
+        raised = [o["raised"] for _, o in sess.trace if o["raised"] is not None
+                  and o["raised"][0] != "InvalidWorkflowStatusTransition"]
+        inflight = sorted(sess.inflight, key=repr)
+    finally:
+        sess.close()
+    m = RecordingModel(definition, inputs)
+    try:
+        for op in api_ops:
+            m._call(["op", op])
+    finally:
+        m.close()
+    return m.nspec, m.ngraph, inputs, ops, m.table, final, inflight, bool(raised)
+
+
+def coq_iop(op):
+    if op[0] in ("IBoot", "IPoll", "IRender", "IPersist"):
+        return op[0]
+    if op[0] == "IRequest":
+        return "IRequest (st %s)" % coq_str(op[1])
+    item = "None" if op[3] is None else "(Some %d)" % op[3]
+    return "IReport %s %d %s (st %s) %s" % (coq_str(op[1]), op[2], item, coq_str(op[4]), coq_json(op[5]))
+
+
+def items_coq(idx, nspec, ngraph, inputs, ops, table, final, inflight, raised):
+    rows = []
+    for stmt, ctx, ans in table:
+        if ans[0] == "ok":
+            r = "EvOk %s" % coq_json(ans[1])
+        else:
+            r = "EvErr {| x_cls := %s; x_msg := %s; x_expr := %s |}" % (coq_str(ans[1]), coq_str(ans[2]),
+                                                                      "true" if ans[3] else "false")
+        rows.append("(%s, %s, %s)" % (coq_str(stmt), coq_json(ctx), r))
+    keys = "; ".join("(%s, %d, %s)" % (coq_str(t), r, "None" if i is None else "Some %d" % i) for t, r, i in inflight)
+    return """
+Definition table%(i)d : list (string * json * evalres) := [%(rows)s].
+Definition ev%(i)d (s : string) (ctx : dict) : evalres :=
+  match find (fun '(s', c', _) => String.eqb s s' && json_eqb (JDict ctx) c') table%(i)d with
+  | Some (_, _, r) => r
+  | None => EvErr {| x_cls := "TableMiss"; x_msg := s; x_expr := false |}
+  end.
+Definition result%(i)d : list bool :=
+  match dec_spec %(spec)s, dec_graph %(graph)s with
+  | Some sp, Some g =>
+      let s := isys_run ev%(i)d [%(ops)s] (isys_init sp g %(inputs)s []) in
+      [ json_eqb (enc_cstate (si_c s)) %(final)s;
+        same_ikeys (si_inflight s) [%(keys)s];
+        Bool.eqb (si_fault s) %(fault)s;
+        negb (si_wiped s) ]
+  | _, _ => []
+  end.
+Eval vm_compute in ("ISYSCHECK", %(i)d, result%(i)d).
+""" % {"i": idx, "rows": ";\n  ".join(rows), "spec": coq_json(nspec), "graph": coq_json(ngraph),
+       "inputs": "[%s]" % "; ".join("(%s, %s)" % (coq_str(k), coq_json(v)) for k, v in inputs.items()),
+       "ops": "; ".join(coq_iop(o) for o in ops), "final": coq_json(final), "keys": keys,
+       "fault": "true" if raised else "false"}
+
+
+def run_items(seed, n=6):
+    """The with-items protocol: engine through the reference provider vs isys_run inside Coq.
+    Returns (cases, cases with both flags false, failures)."""
+    import re
+    parts, cases = [], []
+    for i in range(n * 3):
+        if len(cases) >= n:
+            break
+        try:
+            c = items_case(seed * 1000 + 900 + i)
+            parts.append(items_coq(len(cases), *c))
+            cases.append(c)
+        except ValueError:
+            continue
+    tmp = tempfile.mkdtemp(prefix="isyschk_")
+    try:
+        path = os.path.join(tmp, "isyscheck.v")
+        with open(path, "w") as f:
+            f.write(ITEMS_HEADER + "\n".join(parts))
+        p = subprocess.run(["flock", "-s", os.path.join(COQ, ".lock"), "timeout", "900", "coqc", "-Q",
+                            os.path.join(COQ, "gen"), "Orq", "-Q", os.path.join(COQ, "model"), "Orq", path],
+                           stdout=subprocess.PIPE, stderr=subprocess.STDOUT, text=True, cwd=tmp)
+        out = " ".join(p.stdout.split())
+        if p.returncode != 0:
+            return len(cases), 0, [{"what": "the with-items protocol case file does not compile", "output": p.stdout[-1500:]}]
+        fails, clean = [], 0
+        for mm in re.finditer(r'\("ISYSCHECK", (\d+), \[([^\]]*)\]\)', out):
+            idx = int(mm.group(1))
+            flags = [x.strip() == "true" for x in mm.group(2).split(";")] if mm.group(2).strip() else []
+            names = ["final conductor state", "in-flight set", "fault flag"]
+            if len(flags) != 4:
+                fails.append({"what": "with-items protocol case %d could not be decoded by the model" % idx})
+                continue
+            bad = [names[k] for k in range(3) if not flags[k]]
+            if bad:
+                c = cases[idx]
+                fails.append({"what": "the formal with-items provider protocol (ProviderSysItems.isys_run) and the engine "
+                                      "driven by the reference provider disagree on: %s" % ", ".join(bad),
+                              "protocol_steps": [list(o) for o in c[3]], "definition_spec": c[0]})
+            if flags[3] and not cases[idx][7]:
+                clean += 1
+        return len(cases), clean, fails
+    finally:
+        shutil.rmtree(tmp, ignore_errors=True)
